@@ -2,111 +2,64 @@
    Gen/Builtins.v, the dispatch of a builtin id to its model, Vm::new (boot with the
    generated prelude text) and the evaluation entry points used on the wire.
 
-   TEMPORARY: [tmp_builtin] below contains quick models of a few list/number/
-   predicate builtins so that sessions run before the work packages "lv", "num",
-   "str" are merged; they are replaced by the packages' models at merge time.   *)
+   The builtins themselves are the models of the work packages: number.rs =
+   NumArith/NumProc, string.rs/char.rs = Str, symbol.rs = SymbolB, list.rs/vector.rs/
+   predicate.rs = ListVec; procedure.rs/ports.rs are in Model/Vm.v.  What has no model
+   (libm, rand, time, terminal size) answers [panic 99]; Proofs/BuiltinCoverage.v proves
+   over the generated table that the list of such builtins is exactly the one named there. *)
 From Coq Require Import String.
 From MW Require Import Model.Base Model.F64 Model.Num Model.NumFmt Model.Datum Model.Lex Model.Parse
   Model.TransformDef Model.Transform Model.VmTypes Model.Heap Model.VmBase Model.Compile Model.Vm.
-From MW Require Model.Ratio32 Model.NumArith Model.NumProc Model.Str Model.SymbolB.
+From MW Require Model.Ratio32 Model.NumArith Model.NumProc Model.Str Model.SymbolB Model.ListVec.
 From MW Require Gen.Builtins Gen.Prelude.
 Open Scope N_scope.
 
-(* ----------------------------------------------------- temporary builtins *)
-Definition bool_v (b : bool) : vcell := VBool b.
-Definition num_int (n : num) : option Z :=
-  match n with Fixnum z | BigInt z => Some z | _ => None end.
-Definition mk_int (z : Z) : vcell := VNum (if in_i64 z then Fixnum z else BigInt z).
+(* fuel of the list.rs / predicate.rs loops that follow cdr chains or nested data *)
+Definition LV_FUEL_VM : nat := N.to_nat 400000.
 
-Fixpoint pop_ints (k : nat) (acc : list Z) : M (list Z) :=
-  match k with
-  | O => ret acc
-  | S k' => dom n <- pop_number;
-            match num_int n with Some z => pop_ints k' (z :: acc) | None => panic 98 end
-  end.
-Fixpoint chain (rel : Z -> Z -> bool) (l : list Z) : bool :=
-  match l with a :: (b :: _) as r => rel a b && chain rel r | _ => true end.
-
-(* compare.rs:26-57 eqv on already-popped stack values *)
-Definition eqv_v (l r : vcell) : M bool :=
-  match l, r with
-  | VPtr a, VPtr b => if a =? b then ret true else
-      dom x <- hget a; dom y <- hget b;
-      ret (match x, y with
-           | VBool p, VBool q => Bool.eqb p q
-           | VNum (Fixnum p), VNum (Fixnum q) => (p =? q)%Z
-           | VNil, VNil => true
-           | VPair p1 p2, VPair q1 q2 => (p1 =? q1) && (p2 =? q2)
-           | VChar p, VChar q => p =? q
-           | _, _ => false end)
-  | _, _ =>
-      dom x <- hderef l; dom y <- hderef r;
-      ret (match x, y with
-           | VBool p, VBool q => Bool.eqb p q
-           | VNum (Fixnum p), VNum (Fixnum q) => (p =? q)%Z
-           | VNil, VNil => true
-           | VPair p1 p2, VPair q1 q2 => (p1 =? q1) && (p2 =? q2)
-           | VChar p, VChar q => p =? q
-           | _, _ => false end)
-  end.
-
-Definition tmp_builtin (b : N) : M vcell :=
+(* builtin/list.rs, vector.rs, predicate.rs (Model/ListVec.v, package "lv") *)
+Definition lv_builtin (b : N) : M vcell :=
   let n := builtin_name b in
-  if text_is n "car" then
-    dom _ <- pop_argc 1 (Some 1); dom v <- pop_value;
-    match v with VPair a _ => ret (VPtr a) | _ => fail E_OTHER end
-  else if text_is n "cdr" then
-    dom _ <- pop_argc 1 (Some 1); dom v <- pop_value;
-    match v with VPair _ d => ret (VPtr d) | _ => fail E_OTHER end
-  else if text_is n "cons" then
-    dom _ <- pop_argc 2 (Some 2);
-    dom d <- pop_raw; dom dp <- hput d; dom di <- as_ptr dp;
-    dom a <- pop_raw; dom ap <- hput a; dom ai <- as_ptr ap;
-    ret (VPair ai di)
-  else if text_is n "set-car!" then
-    dom _ <- pop_argc 2 (Some 2);
-    dom o <- pop_raw; dom op <- hput o; dom oi <- as_ptr op;
-    dom pr <- pop_raw; dom pv <- hderef pr;
-    match pv with
-    | VPair _ d => dom p <- as_ptr pr; dom _ <- hset p (VPair oi d); ret VVoid
-    | _ => fail E_OTHER end
-  else if text_is n "set-cdr!" then
-    dom _ <- pop_argc 2 (Some 2);
-    dom o <- pop_raw; dom op <- hput o; dom oi <- as_ptr op;
-    dom pr <- pop_raw; dom pv <- hderef pr;
-    match pv with
-    | VPair a _ => dom p <- as_ptr pr; dom _ <- hset p (VPair a oi); ret VVoid
-    | _ => fail E_OTHER end
-  else if text_is n "null?" then dom _ <- pop_argc 1 (Some 1); dom v <- pop_value;
-    ret (bool_v (match v with VNil => true | _ => false end))
-  else if text_is n "pair?" then dom _ <- pop_argc 1 (Some 1); dom v <- pop_value;
-    ret (bool_v (match v with VPair _ _ => true | _ => false end))
-  else if text_is n "vector?" then dom _ <- pop_argc 1 (Some 1); dom v <- pop_value;
-    ret (bool_v (match v with VVec _ => true | _ => false end))
-  else if text_is n "procedure?" then dom _ <- pop_argc 1 (Some 1); dom v <- pop_value;
-    ret (bool_v (is_procedure v))
-  else if text_is n "symbol?" then dom _ <- pop_argc 1 (Some 1); dom v <- pop_value;
-    ret (bool_v (match v with VSym _ => true | _ => false end))
-  else if text_is n "not" then dom _ <- pop_argc 1 (Some 1); dom v <- pop_value;
-    ret (bool_v (match v with VBool false => true | _ => false end))
-  else if text_is n "eq?" || text_is n "eqv?" then
-    dom _ <- pop_argc 2 (Some 2); dom r <- pop_raw; dom l <- pop_raw;
-    dom e <- eqv_v l r; ret (bool_v e)
-  else if text_is n "+" then dom argc <- pop_argc 0 None; dom l <- pop_ints (N.to_nat argc) [];
-    ret (mk_int (fold_left Z.add l 0%Z))
-  else if text_is n "*" then dom argc <- pop_argc 0 None; dom l <- pop_ints (N.to_nat argc) [];
-    ret (mk_int (fold_left Z.mul l 1%Z))
-  else if text_is n "-" then dom argc <- pop_argc 1 None; dom l <- pop_ints (N.to_nat argc) [];
-    match l with
-    | [x] => ret (mk_int (- x))
-    | x :: r => ret (mk_int (fold_left Z.sub r x))
-    | [] => fail E_OTHER end
-  else if text_is n "=" then dom argc <- pop_argc 1 None; dom l <- pop_ints (N.to_nat argc) []; ret (bool_v (chain Z.eqb l))
-  else if text_is n "<" then dom argc <- pop_argc 1 None; dom l <- pop_ints (N.to_nat argc) []; ret (bool_v (chain Z.ltb l))
-  else if text_is n ">" then dom argc <- pop_argc 1 None; dom l <- pop_ints (N.to_nat argc) []; ret (bool_v (chain Z.gtb l))
-  else if text_is n "<=" then dom argc <- pop_argc 1 None; dom l <- pop_ints (N.to_nat argc) []; ret (bool_v (chain Z.leb l))
-  else if text_is n ">=" then dom argc <- pop_argc 1 None; dom l <- pop_ints (N.to_nat argc) []; ret (bool_v (chain Z.geb l))
-  else panic 99.     (* builtin not modelled yet *)
+  let F := LV_FUEL_VM in
+  if text_is n "car" then ListVec.car F
+  else if text_is n "cdr" then ListVec.cdr F
+  else if text_is n "cons" then ListVec.cons_
+  else if text_is n "set-car!" then ListVec.set_car
+  else if text_is n "set-cdr!" then ListVec.set_cdr
+  else if text_is n "append" then ListVec.append F
+  else if text_is n "reverse" then ListVec.reverse F
+  else if text_is n "list-tail" then ListVec.list_tail F
+  else if text_is n "list-ref" then ListVec.list_ref F
+  else if text_is n "vector" then ListVec.vector
+  else if text_is n "make-vector" then ListVec.make_vector
+  else if text_is n "vector-length" then ListVec.vector_length
+  else if text_is n "vector-ref" then ListVec.vector_ref
+  else if text_is n "vector-set!" then ListVec.vector_set
+  else if text_is n "vector-fill!" then ListVec.vector_fill
+  else if text_is n "vector->list" then ListVec.vector_to_list
+  else if text_is n "list->vector" then ListVec.list_to_vector F
+  else if text_is n "vector-copy" then ListVec.vector_copy
+  else if text_is n "vector-copy!" then ListVec.vector_mut_copy
+  else if text_is n "boolean?" then ListVec.is_boolean
+  else if text_is n "char?" then ListVec.is_char
+  else if text_is n "null?" then ListVec.is_null
+  else if text_is n "number?" then ListVec.is_number
+  else if text_is n "complex?" then ListVec.is_complex
+  else if text_is n "real?" then ListVec.is_real
+  else if text_is n "rational?" then ListVec.is_rational
+  else if text_is n "integer?" then ListVec.is_integer
+  else if text_is n "pair?" then ListVec.is_pair_b
+  else if text_is n "procedure?" then ListVec.is_procedure
+  else if text_is n "string?" then ListVec.is_string
+  else if text_is n "symbol?" then ListVec.is_symbol
+  else if text_is n "vector?" then ListVec.is_vector
+  else if text_is n "port?" then ListVec.is_port
+  else if text_is n "list?" then ListVec.is_list F
+  else if text_is n "eq?" then ListVec.eq_b
+  else if text_is n "eqv?" then ListVec.eqv_b
+  else if text_is n "equal?" then ListVec.equal_b F
+  else if text_is n "not" then ListVec.not_b
+  else panic 99.     (* builtin not modelled (Proofs/BuiltinCoverage.v lists them) *)
 
 (* ------------------------------------------ builtins of the work packages *)
 (* builtin/number.rs at the value level (Model/NumArith.v, package "num"): pop argc
@@ -241,8 +194,8 @@ Definition pkg_builtin (b : N) : M vcell :=
   else if text_is n "string->symbol" then b_string_symbol
   else if text_is n "symbol->string" then b_symbol_string
   else if text_is n "symbol=?" then b_symbol_eq
-  (* ---- list.rs / vector.rs / predicate.rs: temporary models until package "lv" lands *)
-  else tmp_builtin b.
+  (* ---- list.rs / vector.rs / predicate.rs *)
+  else lv_builtin b.
 
 Definition other_builtin : N -> M vcell := pkg_builtin.
 
